@@ -45,7 +45,7 @@ pub fn size_of<K: Kind>() {
         V::S(s) | V::Y(s) => s.len as u64,
         _ => unreachable!(),
     };
-    let m = vf::size(a.cel(), vec![]);
+    let m = vf::size(a.cel(), vec![CelValue::Null]);
     let f = vf::size(CelValue::Null, vec![a.cel()]);
     witness!(n == MAX_STR as u64, "longest operand");
     assert!(matches!(m, CelValue::UInt(x) if x == n), "x.size() is the byte count");
@@ -64,7 +64,7 @@ pub fn size_utf8() {
     let bytes = if extra { vec![b0, b1, b2] } else { vec![b0, b1] };
     let n = if extra { 3u64 } else { 2u64 };
     let s = unsafe { String::from_utf8_unchecked(bytes) };
-    let m = vf::size(CelValue::String(s), vec![]);
+    let m = vf::size(CelValue::String(s), vec![CelValue::Null]);
     witness!(extra, "three bytes");
     assert!(matches!(m, CelValue::UInt(x) if x == n), "size of a string is its UTF-8 length");
     core::mem::forget(m);
